@@ -71,11 +71,11 @@ pub const BATTERY: [(&str, &str, &str, bool); 31] = [
     ("path-bound-hop", "FIND(?p.id, ?a.id, ?b.id) WHERE { ?p PROPOSITION (?a, \"same_as\"{1,1}, ?b) }", "", true),
     ("path-names", "FIND(?a.name, ?b.name, ?b._system.state) WHERE { (?a, \"same_as\"{1,3}, ?b) }", "", true),
     // ---- the remaining WHERE forms: structural edges, NOT, OPTIONAL, UNION, the belief slot
-    ("structural", "FIND(?e.id, ?x.id) WHERE { ?e EVIDENCE {} STRUCTURAL (?e, \"generated_by\", ?x) }", "", true),
+    ("structural", "FIND(?x.id, ?y.id) WHERE { ?x CONCEPT {} STRUCTURAL (?x, \"experienced_by\", ?y) }", "", true),
     ("not", "FIND(?p.id) WHERE { ?p PROPOSITION (?s, \"prefers\", ?o) NOT { ?a ASSERTION {proposition: ?p} } }", "", true),
     ("optional", "FIND(?p.id, ?a.id, ?a.lifecycle.status) WHERE { ?p PROPOSITION (?s, ?pred, ?o) OPTIONAL { ?a ASSERTION {proposition: ?p} } }", "", true),
     ("union", "FIND(?c.id, ?c._system.state) WHERE { ?c CONCEPT {type: \"Person\"} UNION { ?c CONCEPT {state: \"archived\"} } }", "", true),
-    ("belief-slot", "FIND(?slot.contested, ?slot.accepted) WHERE { ?slot BELIEF SLOT (?s, \"prefers\") }", "", true),
+    ("belief-slot", "FIND(?s.id, ?slot.contested, ?slot.accepted) WHERE { ?s CONCEPT {type: \"Person\"} ?slot BELIEF SLOT (?s, \"prefers\") }", "", true),
 ];
 
 /// every WHERE form of `kql/mod.rs` `apply_clause_inner` the battery exercises (the translator reads this
@@ -167,6 +167,11 @@ async fn battery(w: &World, suffix: &str) -> (Vec<String>, String) {
 
 pub async fn run_case(name: &str, cfg: Cfg, mut model: Option<&mut ModelProc>, mut src: Source<'_>) -> CaseResult {
     let mut res = CaseResult::default();
+    if cfg.history {
+        for f in check_battery_forms() {
+            res.failures.push(Failure { key: "battery-misses-query-form".into(), what: format!("the battery claims to exercise the WHERE form {f} and no query of it parses to one"), expected: f.clone(), observed: "-".into() });
+        }
+    }
     let w = World::new(name).await;
     if let Some(m) = model.as_deref_mut() {
         m.ask("reset");
@@ -368,7 +373,7 @@ pub async fn run_case(name: &str, cfg: Cfg, mut model: Option<&mut ModelProc>, m
             if !matches!(out, Outcome::Parse(_)) && recorded.iter().all(|r| r.seq != post.seq) {
                 let (answers, anystate) = battery(&w, "").await;
                 for (i, a) in answers.iter().enumerate() {
-                    if a.starts_with("error") || a.starts_with("parse-error") { res.hits.push(format!("battery-error:{}:{}", BATTERY[i].0, &a[..a.len().min(60)])); }
+                    if a.starts_with("error") || a.starts_with("parse-error") { res.hits.push(format!("battery-error:{}:{}", BATTERY[i].0, &a[..a.len().min(60)])); } else if a != "[]" { res.hits.push(format!("battery-nonempty:{}", BATTERY[i].0)); }
                     if i == 14 && a.contains("0.") { res.hits.push("battery:facet-value-read".into()); }
                 }
                 let (tx_id, at) = match &out { Outcome::Done { tx_id, committed_at, .. } => (Some(tx_id.clone()), Some(committed_at.clone())), _ => (None, None) };
